@@ -18,7 +18,7 @@ EXTENDS Naturals, Sequences, TLC
 
 CONSTANTS MaxRefs,      \* bound on live copies of each handle kind
           Kinds,        \* subset of {"void","copy","move"}
-          Bodies,       \* what the continuation body does: "none","destroyCtx","dropOthers","refinish"
+          Bodies,       \* what the continuation body does: "none","destroyCtx","dropOthers","refinish","reThen"
           MaxHist       \* bound on the number of operations of a behaviour
 
 VARIABLES kind,         \* result type of this promise/task family
@@ -115,6 +115,13 @@ DropAll ==
 \* finished task and the second completion never happens: no effect here.
 \* An implementation that marks the task finished only after the hand-over runs the
 \* continuation a second time, with the other value.
+\* "reThen": the body attaches a second continuation to a copy of its own task.  At that moment the
+\* task is finished and its value is being (or has been) handed over, so for a non-void task there
+\* is nothing to run it with: the second continuation neither runs nor is kept (the call returns,
+\* the closure is released); a void task runs it at once.  Nothing of the family changes -- in
+\* particular the continuation that is executing stays alive until it returns.  (The harness
+\* re-enters only from a continuation run by finish(); one run directly by then() executes while
+\* the stored value is still being handed over.)
 \* `seen` is the finished flag as the body reads it.
 BodyEffect(b, h, seen) ==
     /\ (b = "refinish" => seen)
@@ -147,6 +154,17 @@ Then(b, sc) ==
     /\ UNCHANGED <<kind, fin, finVal>>
     /\ Settle
 
+\* A second then() on a family whose first continuation has been dealt with and whose value is gone
+\* (single-consumer API: see the module comment).  Same reasoning as "reThen": a non-void task has
+\* no value left, the continuation is neither run nor stored; a void task runs it at once.  No
+\* variable of the family changes; sc: the closure captures a copy of the task (if it were stored
+\* it would keep the shared state alive for ever).
+ThenLate(sc) ==
+    /\ tRefs >= 1 /\ ctx = "alive" /\ thenDone /\ fin /\ ~cont /\ ~stored
+    /\ Log([a |-> "ThenLate", sc |-> sc])
+    /\ UNCHANGED <<kind, fin, stored, cont, selfCap, ctx, runs, got, pRefs, tRefs, thenDone, finVal, due>>
+    /\ Settle
+
 (* --- QXmppPromise::finish ------------------------------------------------ *)
 Finish(v, b) ==
     /\ pRefs >= 1 /\ ~fin /\ v \in Vals(kind)
@@ -174,6 +192,7 @@ Finish(v, b) ==
 Next ==
     \/ CopyPromise \/ MakeTask \/ DropPromise \/ DropTask \/ DestroyCtx \/ DropAll
     \/ \E b \in Bodies : \E sc \in BOOLEAN : Then(b, sc)
+    \/ \E sc \in BOOLEAN : ThenLate(sc)
     \/ \E b \in Bodies : \E v \in Vals(kind) : Finish(v, b)
 
 Spec == Init /\ [][Next]_vars
@@ -187,6 +206,8 @@ P_ExactlyOnce(r, d)    == (r = 1) <=> d
 \* held: a self-capturing continuation is still stored and has not run (the cycle the user
 \* built keeps the shared state alive until finish() runs and clears it)
 P_Released(refs, held, lv, lc) == (refs = 0 /\ ~held) => (lv = 0 /\ lc = 0)
+\* a continuation attached when no value is left never runs (it would run without the value)
+P_NoValueNoRun(k, r2)  == k # "void" => r2 = 0
 
 B2N(b) == IF b THEN 1 ELSE 0
 
